@@ -2,6 +2,7 @@ package main
 
 import (
 	"fmt"
+	"sync"
 	"go/types"
 	"sort"
 	"strings"
@@ -92,6 +93,8 @@ type State struct {
 	peekViews     map[int][]*Obj
 	foldSeen      map[int]bool
 	axioms        []*Term
+	streamView    map[int]*Obj
+	unfoldCRC     bool
 }
 
 func (s *State) freshName(base string) string {
@@ -110,9 +113,6 @@ func (s *State) freshVar(base string, so Sort) *Term { return Var(s.freshName(ba
 func (s *State) decide(n int, tag string) int {
 	if n <= 1 {
 		return 0
-	}
-	if s.pure > 0 {
-		unsup("decision %q inside specification code", tag)
 	}
 	if s.dpos < len(s.decisions) {
 		d := s.decisions[s.dpos]
@@ -312,10 +312,12 @@ func (s *State) symValue(t types.Type, name string) Value {
 	case *types.Slice:
 		l := s.freshVar(name+".len", BV(64))
 		c := s.freshVar(name+".cap", BV(64))
-		off := s.freshVar(name+".off", BV(64))
+		// The backing array of a symbolic slice is reachable only through this slice (tree-shaped
+		// pre-state), and Go cannot address elements before a slice's first one, so offset 0 is
+		// without loss of generality.
+		off := Const(64, 0)
 		s.lenAssume(l)
 		s.lenAssume(c)
-		s.lenAssume(off)
 		s.assume(CmpBV("bvsle", l, c))
 		sv := &SliceV{Off: off, Len: l, Cap: c, Elem: u.Elem()}
 		nm := name
@@ -365,12 +367,13 @@ func (s *State) symValue(t types.Type, name string) Value {
 			return v
 		}
 		if cw := s.eng.closedWorld(t); cw != nil {
-			var alts []*Term
-			alts = append(alts, Eq(iv.Type, Const(32, 0)))
-			for _, ct := range cw {
-				alts = append(alts, Eq(iv.Type, Const(32, uint64(typeID(ct)))))
+			// closed world (the interface has unexported methods): case split on the dynamic type right away
+			d := s.decide(len(cw)+1, "dyntype:"+name)
+			if d == 0 {
+				iv.Type = Const(32, 0)
+			} else {
+				iv.Type = Const(32, uint64(typeID(cw[d-1])))
 			}
-			s.assume(Or(alts...))
 		}
 		return iv
 	case *types.Map:
@@ -567,4 +570,32 @@ func sortedKeys(m map[string]bool) []string {
 	}
 	sort.Strings(ks)
 	return ks
+}
+
+// proves: the current path condition entails cond (decided by one quick solver call, cached per query text).
+// Used only to simplify generated terms (e.g. the min() of copy); a "no" answer is always safe.
+var provesCache sync.Map
+
+func (s *State) proves(cond *Term) bool {
+	if cond.IsTrue() {
+		return true
+	}
+	if cond.IsFalse() {
+		return false
+	}
+	hyps := append(append([]*Term{}, s.pc...), s.axioms...)
+	var qf []*Term
+	for _, h := range hyps {
+		if h.Op != "forall" {
+			qf = append(qf, h)
+		}
+	}
+	q := Query(qf, cond, false)
+	if v, ok := provesCache.Load(q); ok {
+		return v.(bool)
+	}
+	r := runSolvers(q, 2, false, "z3")
+	ok := r.Status == "unsat"
+	provesCache.Store(q, ok)
+	return ok
 }
